@@ -2,6 +2,7 @@ package main
 
 import (
 	"fmt"
+	"go/constant"
 	"go/token"
 	"go/types"
 	"sort"
@@ -14,11 +15,11 @@ func init() {
 	register("C07",
 		"Structural necessary conditions of C07 decided from /repo's SSA: (render-total) every index/slice expression in the table renderer and the footnote collector is discharged from dominating facts by the zone-domain bounds engine, so no refgroup nesting depth or name can crash the report; (count) reference_count receives exactly ADD{1}, RegisterReference is called for every root that is a reference regardless of Walk(), exactly one root is collected per reference delivered with walk/groups from the same Categorize call, and each group symbol bumps its tally exactly once; (argv) the reference listing is `for-each-ref` with only the --format argument; (ignored) the `ignored` symbol is appended iff the reference is not walked, and a group whose own filter rejects the name returns (false, no symbols) before collecting any; (symbols) v2 symbols are `refgroup.<symbol>`, indentation is the dot count of the symbol, groups absent from the tally are skipped. Not decided: the recursive tally semantics (`other` buckets, union of subgroups) over arbitrary forests.",
 		[]string{"git for-each-ref lists every reference once", "field-based heap model"},
-		ruleC07RenderTotal, ruleC07Count, ruleC07Argv, ruleC07Ignored, ruleC07Symbols, ruleC07Subgroups)
+		ruleC07RenderTotal, ruleC07Count, ruleC07Argv, ruleC07Ignored, ruleC07Symbols, ruleC07Subgroups, ruleC07EachGroup)
 	register("C08",
 		"Structural necessary conditions of C08 decided from /repo's SSA: (pairing) every witness-path update is control-dependent on the `true` result of the AdjustMax* call on the paired value field (pairing table = the documented JSON v1 keys), passes the function's own object id and the object kind of the metric, and forgets the previous path before requesting the new one; (siblings) in the report's item list every item cites the path field paired with its value field; (none) with NameStyleNone the resolver hands out no path, Footnote is always empty, hash style cites the object id and full style the path description. Not decided: that a printed description resolves with git rev-parse (depends on git's revision grammar and run-time strings).",
 		[]string{"the enumeration delivers each object's id together with its size (C01.effects provenance)"},
-		ruleC08Pairing, ruleC08Siblings, ruleC08None, ruleC08ParentKind)
+		ruleC08Pairing, ruleC08Siblings, ruleC08None, ruleC08ParentKind, ruleC08RootPrefix)
 }
 
 // ---------------- C07 ----------------
@@ -53,15 +54,25 @@ func ruleC07Count(c *Ctx) {
 		c.violate("C07.count", "model", token.NoPos, "", "cannot identify the scanner or (*sizes.Graph).RegisterReference")
 		return
 	}
-	name := fnName(si.Fn)
-	calls := callsTo(si.Fn, regRef)
+	var calls []*ssa.Call
+	for _, ci := range c.Callers[regRef] {
+		if call, ok := ci.(*ssa.Call); ok {
+			calls = append(calls, call)
+		}
+	}
 	if len(calls) != 1 {
-		c.violate("C07.count", "register-site", si.Fn.Pos(), name, fmt.Sprintf("expected one RegisterReference call in the scanner, found %d", len(calls)))
+		c.violate("C07.count", "register-site", si.Fn.Pos(), fnName(si.Fn), fmt.Sprintf("expected one RegisterReference call site, found %d", len(calls)))
 		return
 	}
 	call := calls[0]
-	l := innermostLoop(loopsOf(si.Fn), call.Block())
-	if l == nil || !c.loopOverParam(l, si.Fn) {
+	regFn := call.Parent()
+	name := fnName(regFn)
+	// the function holding the loop is the scanner or a helper called from it
+	if regFn != si.Fn && len(callsTo(si.Fn, regFn)) != 1 {
+		c.violate("C07.count", "register-site:reached", call.Pos(), name, "the reference registration loop is not called exactly once from the scanner")
+	}
+	l := innermostLoop(loopsOf(regFn), call.Block())
+	if l == nil || !c.loopOverParam(l, regFn) {
 		c.violate("C07.count", "register-loop", call.Pos(), name, "RegisterReference is not called from the loop over the scanner's roots")
 	} else {
 		// guards: only the type assertion to ReferenceRoot
@@ -110,21 +121,27 @@ func ruleC07Count(c *Ctx) {
 	} else {
 		c.violate("C07.count", "tally-once", regRef.Pos(), fnName(regRef), fmt.Sprintf("a group symbol updates its tally between %d and %d times", r.Min, r.Max))
 	}
+	c.checkCollect("C07.count")
+}
+
+// checkCollect: exactly one root per reference delivered, carrying that
+// reference and the walk decision / symbols of its own Categorize call.
+func (c *Ctx) checkCollect(rule string) {
 	// CollectReferences: one root per delivered reference
 	collect := c.fn("/sizes", "", "CollectReferences")
 	refNext := c.fn("/git", "*ReferenceIter", "Next")
 	if collect == nil || refNext == nil {
-		c.violate("C07.count", "collect", token.NoPos, "", "sizes.CollectReferences / (*git.ReferenceIter).Next not found")
+		c.violate(rule, "collect", token.NoPos, "", "sizes.CollectReferences / (*git.ReferenceIter).Next not found")
 		return
 	}
 	nexts := callsTo(collect, refNext)
 	if len(nexts) != 1 {
-		c.violate("C07.count", "collect:next", collect.Pos(), fnName(collect), "CollectReferences does not read the reference iterator from exactly one place")
+		c.violate(rule, "collect:next", collect.Pos(), fnName(collect), "CollectReferences does not read the reference iterator from exactly one place")
 		return
 	}
 	cl := innermostLoop(loopsOf(collect), nexts[0].Block())
 	if cl == nil {
-		c.violate("C07.count", "collect:loop", nexts[0].Pos(), fnName(collect), "references are not read in a loop")
+		c.violate(rule, "collect:loop", nexts[0].Pos(), fnName(collect), "references are not read in a loop")
 		return
 	}
 	ecApp := c.newEventCounter(func(in ssa.Instruction) int {
@@ -134,9 +151,9 @@ func ruleC07Count(c *Ctx) {
 		return 0
 	}, false)
 	if r := ecApp.perIteration(cl); r.Min == 1 && r.Max == 1 {
-		c.hold("C07.count", "collect:once", nexts[0].Pos(), "exactly one root is appended per reference delivered")
+		c.hold(rule, "collect:once", nexts[0].Pos(), "exactly one root is appended per reference delivered")
 	} else {
-		c.violate("C07.count", "collect:once", nexts[0].Pos(), fnName(collect), fmt.Sprintf("between %d and %d roots are collected per reference delivered (must be exactly one)", r.Min, r.Max))
+		c.violate(rule, "collect:once", nexts[0].Pos(), fnName(collect), fmt.Sprintf("between %d and %d roots are collected per reference delivered (must be exactly one)", r.Min, r.Max))
 	}
 	// the root's fields: ref from Next, walk/groups from Categorize(ref.Refname)
 	okFields := map[string]bool{}
@@ -147,11 +164,11 @@ func ruleC07Count(c *Ctx) {
 		}
 	})
 	if catCall == nil {
-		c.violate("C07.count", "collect:categorize", collect.Pos(), fnName(collect), "CollectReferences does not categorise the references")
+		c.violate(rule, "collect:categorize", collect.Pos(), fnName(collect), "CollectReferences does not categorise the references")
 		return
 	}
 	if b, p := c.fieldPath(c.resolve(catCall.Call.Args[0])); b == nil || p[len(p)-1] != "Refname" || !c.holdsResult(b, nexts[0], 0) {
-		c.violate("C07.count", "collect:categorize-arg", catCall.Pos(), fnName(collect), "Categorize is not given the name of the reference just read")
+		c.violate(rule, "collect:categorize-arg", catCall.Pos(), fnName(collect), "Categorize is not given the name of the reference just read")
 	}
 	allInstrs(collect, func(in ssa.Instruction) {
 		st, ok := in.(*ssa.Store)
@@ -180,9 +197,9 @@ func ruleC07Count(c *Ctx) {
 	})
 	for _, k := range []string{"ref", "walk", "groups"} {
 		if okFields[k] {
-			c.hold("C07.count", "collect:field:"+k, catCall.Pos(), "taken from this iteration's reference / Categorize result")
+			c.hold(rule, "collect:field:"+k, catCall.Pos(), "taken from this iteration's reference / Categorize result")
 		} else {
-			c.violate("C07.count", "collect:field:"+k, catCall.Pos(), fnName(collect), "the collected root's "+k+" does not come from this iteration's reference and its Categorize result")
+			c.violate(rule, "collect:field:"+k, catCall.Pos(), fnName(collect), "the collected root's "+k+" does not come from this iteration's reference and its Categorize result")
 		}
 	}
 }
@@ -197,6 +214,12 @@ func (c *Ctx) isLoadOfResult(v ssa.Value, call *ssa.Call, idx int) bool {
 func (c *Ctx) loopOverParam(l *loop, f *ssa.Function) bool {
 	sl := c.loopOver(f, l)
 	if sl == nil {
+		return false
+	}
+	if sl.Param != nil {
+		return true
+	}
+	if sl.Cell == nil {
 		return false
 	}
 	st := c.cellStores(sl.Cell)
@@ -223,7 +246,33 @@ func ruleC07Ignored(c *Ctx) {
 			}
 		})
 		if collect == nil {
-			continue // a wrapper (e.g. --show-refs) that delegates
+			// a wrapper (e.g. --show-refs) that delegates: it must hand the delegate's verdict and symbols through unchanged
+			var deleg *ssa.Call
+			allInstrs(f, func(in ssa.Instruction) {
+				if call, ok := in.(*ssa.Call); ok && call.Call.IsInvoke() && call.Call.Method.Name() == "Categorize" {
+					deleg = call
+				}
+			})
+			if deleg == nil {
+				continue
+			}
+			n++
+			okPass := true
+			for _, ret := range returnsOf(f) {
+				for i := 0; i < 2; i++ {
+					for _, v := range c.resultValues(ret, i) {
+						if ex, ok := v.(*ssa.Extract); !ok || ex.Tuple != ssa.Value(deleg) || ex.Index != i {
+							okPass = false
+						}
+					}
+				}
+			}
+			if okPass {
+				c.hold("C07.ignored", fnName(f)+":pass-through", deleg.Pos(), "the wrapper returns the wrapped grouper's walk decision and symbols unchanged on every path")
+			} else {
+				c.violate("C07.ignored", fnName(f)+":pass-through", deleg.Pos(), fnName(f), "a grouper wrapper alters what the wrapped grouper decided (walk flag or symbols): with that wrapper active (e.g. --show-refs) tallies such as `ignored` differ from a plain run")
+			}
+			continue
 		}
 		n++
 		name := fnName(f)
@@ -800,4 +849,106 @@ func ruleC08ParentKind(c *Ctx) {
 	if n < 2 {
 		c.violate("C08.parent-kind", "floor", token.NoPos, "", fmt.Sprintf("only %d referrer-recording sites found in the path resolver (commit→tree and tree→entry expected)", n))
 	}
+}
+
+// ruleC08RootPrefix: git's revision grammar is <rev>:<path>. When an object
+// that can have path components below it (a commit, a tag, or a tree that a
+// root names directly) is itself named by a root, the prefix under which its
+// entries are described must be "<name>:"; with no name at all it is
+// "<oid>:". Interpreted with E5 on (*Path).TreePrefix for a parentless path.
+func ruleC08RootPrefix(c *Ctx) {
+	pt := c.namedType("/sizes", "Path")
+	if pt == nil {
+		c.violate("C08.root-prefix", "Path", token.NoPos, "", "sizes.Path not found")
+		return
+	}
+	f := c.methodOf(types.NewPointer(pt), "TreePrefix")
+	if f == nil {
+		c.violate("C08.root-prefix", "TreePrefix", token.NoPos, "", "(*sizes.Path).TreePrefix not found: descriptions of entries below a named object cannot be built")
+		return
+	}
+	st := pt.Underlying().(*types.Struct)
+	for _, kind := range []string{"commit", "tree"} {
+		mk := func() aVal {
+			s := aStruct{pt, map[int]aVal{}}
+			for i := 0; i < st.NumFields(); i++ {
+				fv := st.Field(i)
+				switch {
+				case isPtrToNamed(fv.Type(), modPath+"/sizes", "Path"):
+					s.f[i] = aConst{nil, fv.Type()}
+				case isNamed(fv.Type(), modPath+"/git", "OID"):
+					s.f[i] = aSym("OID")
+				default:
+					if b, ok := fv.Type().Underlying().(*types.Basic); ok && b.Kind() == types.String {
+						if strings.Contains(strings.ToLower(fv.Name()), "type") {
+							s.f[i] = aConst{constant.MakeString(kind), fv.Type()}
+						} else {
+							s.f[i] = aSym("NAME")
+						}
+					} else {
+						s.f[i] = aSym("p." + fv.Name())
+					}
+				}
+			}
+			return aPtr{&aCell{v: s}}
+		}
+		sums := map[string]aSummary{
+			modQ("/git", "OID", "String"): func(fr *aFrame, args []aVal) (aVal, bool) { return aSym("HEX(" + aShow(args[0]) + ")"), true },
+		}
+		rows := aEnumerate(nil, func(e *aEnv) aVal { return c.aCall(f, []aVal{mk()}, e, 0, sums) })
+		bad := ""
+		named := 0
+		for _, r := range rows {
+			if len(r.Undec) > 0 {
+				bad = "UNDECIDED " + strings.Join(r.Undec, "; ")
+				continue
+			}
+			hasName, asked := r.Atoms[`["" == NAME]`]
+			if !asked {
+				bad = "the prefix of a parentless " + kind + " does not depend on whether a root names it: " + r.String()
+				continue
+			}
+			got := aShow(r.Result)
+			if !hasName {
+				named++
+				// the name may itself be of the form <rev>:<path> (ROOT `master:dir`): then the path simply continues
+				ct, askedCT := r.Atoms[`strings.Contains(NAME,":")`]
+				hs, askedHS := r.Atoms[`strings.HasSuffix(NAME,":")`]
+				switch {
+				case askedHS && hs:
+					if got != "NAME" {
+						bad = fmt.Sprintf("a %s named `<rev>:` gets the prefix %s instead of the name itself", kind, got)
+					}
+				case askedCT && ct:
+					if got != `(NAME + "/")` {
+						bad = fmt.Sprintf("a %s named `<rev>:<path>` gets the prefix %s instead of NAME/", kind, got)
+					}
+				case askedCT && !ct:
+					if got != `(NAME + ":")` {
+						bad = fmt.Sprintf("entries below a %s that a root names as a plain tree-ish are described as %s…; git's revision grammar needs NAME:<path>", kind, got)
+					}
+				default:
+					if kind == "tree" {
+						bad = fmt.Sprintf("entries below a tree that a root names directly are described as %s… whatever the form of the name; git's revision grammar needs NAME:<path> for a plain tree-ish (refs/tags/t:dir/file, not refs/tags/t/dir/file) and NAME/<path> only when the name already is <rev>:<path>", got)
+					} else if got != `(NAME + ":")` {
+						bad = fmt.Sprintf("entries below a named %s are described as %s… instead of NAME:<path>", kind, got)
+					}
+				}
+			} else if kind == "commit" && !strings.Contains(got, "HEX(") {
+				bad = "entries below an unnamed commit are not described as <oid>:<path>: " + got
+			}
+		}
+		if named == 0 && bad == "" {
+			bad = "no case for a " + kind + " named directly by a root"
+		}
+		c.judge("C08.root-prefix", kind, f, bad, rows, "parentless "+kind+" named by a root ⇒ NAME: for a plain tree-ish (NAME/ only when the name already is <rev>:<path>)")
+	}
+}
+
+// ruleC07EachGroup: every group of the hierarchy gets its own rules and name
+// (C15.each-group, reported under C07's name).
+func ruleC07EachGroup(c *Ctx) {
+	c.RuleAlias = map[string]string{"C15.each-group": "C07.hierarchy"}
+	defer func() { c.RuleAlias = nil }()
+	ruleC15EachGroup(c)
 }
